@@ -66,6 +66,7 @@ class MaskerInfo:
         self.error: Optional[str] = None
         self.theta_term: Optional[Term] = None
         self.buffer_only: Optional[str] = None     # theta is a plain buffer (frozen features)
+        self.kinds: Dict[str, str] = {}
 
 
 def _default_env(repo: Repo, fn: FunctionInfo) -> Dict[Term, Term]:
@@ -93,7 +94,9 @@ def analyse_masker(repo: Repo, ci: ClassInfo) -> MaskerInfo:
     theta = ps[0].retval
     mi.theta_term = theta
     bufs = registered_buffers(repo, ci)
-    params = parameters_of(repo, ci)
+    kinds = storage_kinds(repo, ci)
+    params = {k for k, v in kinds.items() if v == 'param'}
+    mi.kinds = kinds
     mi.reads_param = mentions(theta, lambda t: t[0] == 'attr' and t[1] == SELF and t[2] in params)
     if theta[0] == 'attr' and theta[1] == SELF and theta[2] in bufs:
         mi.buffer_only = theta[2]
@@ -110,14 +113,16 @@ def analyse_masker(repo: Repo, ci: ClassInfo) -> MaskerInfo:
                  if (is_call(t, 'torch.abs') and len(t[2]) == 1) or
                  (method_call(t) and method_call(t)[1] == 'abs')]
     buf_atoms = [t for t in subterms(blend)
-                 if t[0] == 'attr' and t[1] == SELF and t[2] in bufs]
+                 if t[0] == 'attr' and t[1] == SELF and t[2] in bufs and
+                 not any(t == (a[2][0] if is_call(a, 'torch.abs') else method_call(a)[0])
+                         for a in abs_atoms)]
     if abs_atoms and buf_atoms:
         A, K = abs_atoms[0], buf_atoms[0]
         inner = A[2][0] if is_call(A, 'torch.abs') else method_call(A)[0]
         want = ('bin', '+', ('bin', '*', A, ('bin', '-', ('const', 1), K)), K)
         # normalise torch.mul / torch.add calls to operators first
         if poly.equal(_ops(blend), want) and inner[0] == 'attr' and inner[1] == SELF and \
-                inner[2] in params:
+                kinds.get(inner[2]) in ('param', 'buffer'):
             mi.blend_ok = True
             mi.param = inner[2]
             mi.ka_name = K[2]
@@ -196,3 +201,77 @@ def _const_value(repo: Repo, ci: ClassInfo, term: Term, init: FunctionInfo):
                 raise AnchorError(f'{mc[1]}: return paths disagree')
         return first
     return AnchorEval({}).value(term)
+
+
+def storage_kinds(repo: Repo, ci: ClassInfo, _depth: int = 0) -> Dict[str, str]:
+    """attribute -> 'param' | 'buffer' | 'plain' after the constructor chain of ``ci`` ran,
+    following ``super().__init__`` calls in program order; ``del self.x`` removes an entry
+    (the idiom used to turn an inherited parameter into a buffer)."""
+    kinds: Dict[str, str] = {}
+    mro = [c for c in repo.mro(ci) if isinstance(c, ClassInfo)]
+    owner = None
+    for c in mro:
+        if '__init__' in c.methods:
+            owner = c
+            break
+    if owner is None or _depth > 8:
+        return kinds
+    init = owner.methods['__init__']
+    ps = returning(paths(repo, init))
+    if not ps:
+        return kinds
+    # all paths are merged in order (later writes win); constructors here are nearly linear
+    for p in ps:
+        for e in p.events:
+            if e.kind == 'call':
+                t = e.data[0]
+                mc = method_call(t)
+                if mc and mc[1] == '__init__' and is_call(mc[0], 'builtins.super'):
+                    idx = mro.index(owner)
+                    for nxt in mro[idx + 1:]:
+                        if '__init__' in nxt.methods:
+                            kinds.update(storage_kinds(repo, nxt, _depth + 1))
+                            break
+                elif mc and mc[0] == SELF and mc[1] == 'register_buffer' and mc[2] and \
+                        mc[2][0][0] == 'const':
+                    kinds[mc[2][0][1]] = 'buffer'
+                elif mc and mc[0] == SELF and mc[1] == 'register_parameter' and mc[2] and \
+                        mc[2][0][0] == 'const':
+                    kinds[mc[2][0][1]] = 'param'
+            elif e.kind == 'setattr' and e.data[0] == SELF:
+                name, v = e.data[1], e.data[2]
+                if is_call(v, 'torch.nn.Parameter', 'torch.nn.parameter.Parameter'):
+                    kinds[name] = 'param'
+                elif kinds.get(name) == 'buffer':
+                    pass        # nn.Module.__setattr__ keeps a registered buffer a buffer
+                elif kinds.get(name) == 'param' and v[0] == 'const' and v[1] is None:
+                    kinds[name] = 'plain'
+                elif name not in kinds:
+                    kinds[name] = 'plain'
+            elif e.kind == 'delete':
+                t = e.data[0]
+                if t[0] == 'attr' and t[1] == SELF:
+                    kinds.pop(t[2], None)
+    return kinds
+
+
+def frozen_masker_classes(repo: Repo) -> List[ClassInfo]:
+    """Maskers frozen by construction, discovered by structure: a subclass of a class that
+    has a ``theta`` property, whose own ``trainable`` setter is a no-op."""
+    out = []
+    for c in repo.classes.values():
+        s = c.setters.get('trainable')
+        if s is None or repo.find_getter(c, 'theta') is None:
+            continue
+        body = [b for b in s.node.body if not (hasattr(b, 'value') and
+                                               b.__class__.__name__ == 'Expr' and
+                                               b.value.__class__.__name__ == 'Constant')]
+        if all(b.__class__.__name__ == 'Pass' for b in body):
+            out.append(c)
+    return out
+
+
+def masker_classes(repo: Repo) -> List[ClassInfo]:
+    return [c for c in repo.classes.values()
+            if repo.find_getter(c, 'theta') is not None and
+            repo.find_setter(c, 'trainable') is not None]
